@@ -345,3 +345,31 @@ func (c *Conn) PendingInbound() int {
 	}
 	return n
 }
+
+// FailNextWrite makes the next (or a currently blocked) Write fail with ErrInjected.
+func (c *Conn) FailNextWrite() {
+	s, mode := cur()
+	if mode != modeSched {
+		return
+	}
+	s.point(&Op{Kind: "srv.FailNextWrite", Obj: &c.out})
+	c.WriteErrAt = c.nWrites + 1
+	s.event(0x445, &c.out, true)
+}
+
+// NWrites is the number of Write calls made so far.
+func (c *Conn) NWrites() int { return c.nWrites }
+
+// StallWrites makes the server stop reading: once n more bytes are pending,
+// client writes block (until Drain/ReadLine free capacity, the socket is closed
+// locally, or a write error is injected).
+func (c *Conn) StallWrites(n int) {
+	s, mode := cur()
+	if mode != modeSched {
+		return
+	}
+	s.point(&Op{Kind: "srv.StallWrites", Obj: &c.out})
+	c.pipeUsed = 0
+	c.PipeCap = n
+	s.event(0x446^uint64(n)<<16, &c.out, true)
+}
